@@ -140,6 +140,30 @@ def run(ctx):
     from .c17 import binning_convention_rule
     binning_convention_rule(ctx, "C04.R6")
 
+    ctx.rule("C04.R8", "A11 presence table: the `(Interval) -> bool` shortcut of every query filter (interval_is_unbounded: skip the span test) is "
+                       "false whenever a bound is present — computed from the MIR over {None, Some} x {None, Some}")
+    from .. import a11
+    n8 = 0
+    for k, f in sorted(fb.fns.items()):
+        if not re.search(r"::io::reader::query::\w+$", k) or f.argc != 1 or not f.blocks or f.is_closure:
+            continue
+        if f.locals[0] != "bool" or not f.locals[1].endswith("region::interval::Interval"):
+            continue
+        n8 += 1
+        ctx.saw_fn(f)
+        tab = a11.presence_table(fb, f, lambda s_, e_: [("struct", {0: ("opt", s_), 1: ("opt", e_)})])
+        wrong = [bits for bits, v in sorted(tab.items()) if (bits[0] or bits[1]) and v is True]
+        und = [bits for bits, v in sorted(tab.items()) if v is a11.UNDECIDED]
+        fmt = lambda bits: "(start=%s, end=%s)" % tuple("Some" if b else "None" for b in bits)
+        if wrong:
+            ctx.violation("C04.R8", "C04.R8/half-bounded-treated-as-unbounded/" + k,
+                          "%s returns true for %s: a region with one bound is treated as the whole reference sequence, the span test is "
+                          "skipped and every record of the scanned chunks is returned" % (k, ", ".join(fmt(b) for b in wrong)), f.loc())
+        else:
+            ctx.ok("C04.R8", k, "table: %s%s" % ("; ".join("%s -> %s" % (fmt(b), "?" if v is a11.UNDECIDED else v) for b, v in sorted(tab.items())),
+                                                 " (rows marked ? use a construct the interpreter does not model: not decided)" if und else ""), f.loc())
+    ctx.floor("C04.R8", "(Interval) -> bool helpers in the io::reader::query modules", n8, 4)
+
     ctx.rule("C04.R5", "binned index min_offset is a minimum over several bins (ancestor bins hold earlier, longer records)")
     key = ("noodles_csi::binning_index::index::reference_sequence::index::binned_index::<impl noodles_csi::binning_index::index::"
            "reference_sequence::index::Index for indexmap::map::IndexMap<usize, noodles_bgzf::virtual_position::VirtualPosition>>::min_offset")
